@@ -229,6 +229,19 @@ def rules(rep, facts):
     r2_inplace(rep, facts)
     rep.relabel('C08/R2', 'C06/R10', 'an element handed to Array::push / insert gets the canonical inline decoration, prefix and suffix (a suffix it brought along, e.g. a trailing '
                 'comment, would swallow the `,` / `]` written after it and the text would not be valid TOML): ')
+    if 'serde' in feats:
+        # the formatting visitors run between building the tree and printing it (to_string_pretty, toml::to_string): what they move into a
+        # place the printer skips is lost from the text
+        from .rules_c07 import r3_promotion
+        r3_promotion(rep, facts)
+        rep.relabel('C07/R3', 'C06/R11', 'nothing the formatting visitors touch drops out of the printed text: ')
+    if 'toml_datetime' in facts.crates and 'parse' in feats:
+        # a date-time the API can hold prints with Display and has to decode again — through the document grammar and, on the serde route,
+        # through the standalone parser: both must accept every field value the other accepts (e.g. the leap second :60)
+        from . import parsemodel as pm
+        from .rules_c12 import r1_fields
+        r1_fields(rep, facts, pm.model(facts))
+        rep.relabel('C12/R1', 'C06/R12', 'every printed date-time decodes on either route: ')
     R8 = rep.rule('C06/R8', 'no order-breaking operation / unstable sort in the printers (the same structure always prints the same, valid header order)', floor=2)
     order_ops(rep, R8, facts)
 
